@@ -13,7 +13,7 @@ from . import elf, real, refline, stream
 OBJDUMP = shutil.which("objdump")
 AS = shutil.which("as")
 
-SECTION_NAMES = [".text", ".init", ".fini", ".plt", ".plt.got", "my.sec", ".text.hot", "CODE", ".t", ".text$mn", "_ZN4core3fmt$LT$x$GT$", "sec with blank", ".text'q"]
+SECTION_NAMES = [".text", ".init", ".fini", ".plt", ".plt.got", "my.sec", ".text.hot", "CODE", ".t", ".text$mn", "_ZN4core3fmt$LT$x$GT$", "sec with blank", ".text'q", ".text,hot", "a,b,c"]
 
 
 def random_object(rng: random.Random, bits: Optional[int] = None, nsec: Optional[int] = None, size=(300, 3000), data_sections=True):
